@@ -11,6 +11,7 @@ namespace sim {
 
 static const char* const NS1 = "urn:x-ns1";
 static const char* const NS2 = "urn:x-ns2";
+static const char* const NS1ALT = "urn:x-ns1-alt";
 static const char* const NSD = "urn:x-def";
 
 struct DocCfg {
@@ -19,6 +20,7 @@ struct DocCfg {
     int maxFan = 5;
     bool manyNames = false;   // > 50 distinct element names (evicts the 50-entry pattern cache)
     bool ns = true;           // use prefixed / default namespaces
+    bool rebind = false;      // some subtrees bind the prefix p1 to another namespace (same QName, different expanded-name)
     bool dtd = false;         // internal subset declaring id as ID (and DOCTYPE present)
     bool comments = true, pis = true;
     bool exoticText = true;   // markup chars, non-ASCII, supplementary, CR/TAB refs
@@ -92,6 +94,7 @@ struct DocGen {
         if (c.ns && g.chance(1, 8)) s += " p1:x=\"" + std::to_string(g.below(9)) + "\"";
         if (c.ns && g.chance(1, 12)) s += " xml:lang=\"" + std::string(g.chance(1, 2) ? "en" : "fr-CA") + "\"";
         if (c.ns && g.chance(1, 14)) s += " xmlns:p3=\"urn:x-ns3-" + std::to_string(g.below(3)) + "\"";
+        if (c.ns && c.rebind && g.chance(1, 7)) s += std::string(" xmlns:p1=\"") + (g.chance(1, 4) ? NS1 : NS1ALT) + "\"";
         if (c.ns && g.chance(1, 20)) s += std::string(" xmlns=\"") + (g.chance(1, 2) ? NSD : "") + "\"";
         int kids = (depth >= c.maxDepth || budget <= 0) ? 0 : (int)g.below(c.maxFan + 1);
         bool anyContent = false; std::string body;
@@ -161,6 +164,8 @@ struct SSCfg {
     std::string sysIdStyle;          // "" | "noslash": a stylesheet that includes through a ../ href (used with an unusual base URI)
     bool dupExtPrefix = false;       // extension-element-prefixes lists two prefixes bound to one namespace URI
     std::string sortLang = "de", sortCase;   // "sortlang" feature: lang and case-order ("" = absent)
+    int keyVariant = 0;              // "key-prefixed" / "key-variant": which namespace the key prefixes are bound to and what the keys use (0..2)
+    std::string rootName = "out";    // with method "" (no method attribute) and rootName "html" the processor switches to the HTML serializer after the first element
 };
 
 struct GenSS {
@@ -175,7 +180,8 @@ inline const std::vector<std::string>& allFeatures() {
         "name", "counts", "strval", "axes", "revaxes", "pos", "key", "keyids", "id", "num-single", "num-multi", "num-any", "num-nocount",
         "fmtnum", "fmtnum-df", "arith", "strfn", "copyof", "copy", "rtf", "nodeset", "calltmpl", "choose", "elemattr", "attrset",
         "lre", "message", "modes", "sort2", "comment-pi", "exslt-set", "exslt-math", "exslt-str", "genid", "lang", "sysprop", "param", "ifbool",
-        "union", "preds", "valnum", "apply-imports", "text-nodes", "ns-axis", "doctype-node", "attr-nodes", "number-value", "bigfmt", "xalan-ext", "docfn", "avt-ns", "extfn", "paramuse", "gate", "num-gate", "sortlang", "num-value", "lazyvar", "manyrtf", "deeprec", "padsupp", "top-nodes", "doe", "sort-gate", "bignum-alpha"
+        "union", "preds", "valnum", "apply-imports", "text-nodes", "ns-axis", "doctype-node", "attr-nodes", "number-value", "bigfmt", "xalan-ext", "docfn", "avt-ns", "extfn", "paramuse", "gate", "num-gate", "sortlang", "num-value", "lazyvar", "manyrtf", "deeprec", "padsupp", "top-nodes", "doe", "sort-gate", "bignum-alpha",
+        "num-punct", "num-exotic", "ext-evaluate", "rtf-key", "key-prefixed", "key-variant"
     };
     return f;
 }
@@ -251,6 +257,20 @@ struct SSGen {
         // numbers in the thousands for the alphabetic and roman tokens
         if (on("bignum-alpha")) perNode += o("bignum-alpha", "<xsl:number value=\"count(preceding::*) * 97 + 650\" format=\"A\"/>|<xsl:number value=\"(count(preceding::*) + 1) * 676\" format=\"a\"/>|<xsl:number value=\"count(preceding::*) * 13 + 3990\" format=\"I\"/>|<xsl:number value=\"count(preceding::*) * 1000 + 999\" format=\"1\" grouping-separator=\",\" grouping-size=\"3\"/>");
         if (on("num-value")) perNode += o("num-value", "<xsl:number value=\"count(preceding::*) div 2\"/>|<xsl:number value=\"(count(preceding::*) + 1) div 4\" format=\"a\"/>|<xsl:number value=\"count(*) + 0.5\" format=\"I\"/>|<xsl:number value=\"@v * 1.5\" format=\"01\"/>");
+        // number formats without any alphanumeric token, and tokens of other scripts
+        if (on("num-punct")) perNode += o("num-punct", "<xsl:number value=\"count(preceding::*) + 1\" format=\".\"/>|<xsl:number value=\"count(*) + 1\" format=\"-\"/>|<xsl:number level=\"multiple\" count=\"*\" format=\") \"/>|<xsl:number value=\"position()\" format=\"#\"/>|<xsl:number level=\"multiple\" count=\"*\" format=\"(1)\"/>|<xsl:number level=\"multiple\" count=\"*\" format=\"1. \"/>|<xsl:number value=\"count(*) + 1\" format=\"\"/>|<xsl:number level=\"multiple\" count=\"*\" format=\"{substring('.-#:', 1 + count(*) mod 4, 1)}\"/>|<xsl:number level=\"multiple\" count=\"*\" format=\"--1--a--\"/>");
+        if (on("num-exotic")) perNode += o("num-exotic", "<xsl:number value=\"count(preceding::*) + 1\" format=\"&#x3B1;\" letter-value=\"alphabetic\"/>|<xsl:number value=\"count(preceding::*) * 5 + 1\" format=\"&#x3B1;\" letter-value=\"traditional\" lang=\"el\"/>|<xsl:number value=\"count(preceding::*) * 7 + 1\" format=\"&#x661;\"/>|<xsl:number value=\"count(preceding::*) + 1\" format=\"&#x0967;\"/>|<xsl:number level=\"multiple\" count=\"*\" format=\"&#x3B1;.1\" letter-value=\"{substring('alphabetic traditional', 1 + 11 * (count(*) mod 2), 11 - (count(*) + 1) mod 2)}\"/>|<xsl:number value=\"count(preceding::*) * 1234 + 1\" format=\"&#x3B1;\" letter-value=\"traditional\"/>");
+        // dynamic evaluation: the string is itself a literal, a number, a path or computed
+        if (on("ext-evaluate")) perNode += "<xsl:variable name=\"ev1\" select=\"xalan:evaluate(&quot;'abc'&quot;)\"/><xsl:variable name=\"ev2\" select=\"dyn:evaluate('12345.5')\"/><xsl:variable name=\"ev3\" select=\"dyn:evaluate(&quot;('x')&quot;)\"/><xsl:variable name=\"ev4\" select=\"xalan:evaluate(concat('*[', 1, ']/@id'))\"/>"
+            + o("ext-evaluate", vo("count(dyn:evaluate('*'))") + "," + vo("concat($ev1, '-', $ev3)") + "," + vo("$ev2 + 1") + "," + vo("$ev4") + "," + vo("xalan:evaluate('count(*) + 1')") + "," + vo("string-length(dyn:evaluate(&quot;concat('x','y')&quot;))") + "," + vo("exsl:object-type($ev1)") + "/" + vo("exsl:object-type($ev4)"));
+        // key() over the nodes of a result tree fragment: a key table built for a temporary document
+        if (on("rtf-key")) { top += "<xsl:key name=\"rk\" match=\"r\" use=\"@k\"/>";
+            perNode += "<xsl:if test=\"count(preceding::*) mod 3 = 0\"><xsl:variable name=\"rtf3\"><r k=\"{@k}\">a</r><r k=\"k1\">b</r><r k=\"{@k}\">c</r></xsl:variable><o f=\"rtf-key\" n=\"{@id}\"><xsl:for-each select=\"exsl:node-set($rtf3)/r[1]\"><xsl:value-of select=\"count(key('rk', @k))\"/>,<xsl:value-of select=\"key('rk', 'k1')\"/>,<xsl:value-of select=\"count(key('rk', 'none'))\"/></xsl:for-each></o></xsl:if>"; }
+        // key names with prefixes whose bindings differ from stylesheet to stylesheet; an unprefixed key whose use expression differs too
+        if (on("key-prefixed")) { top += std::string("<xsl:key name=\"kp:k\" match=\"*\" use=\"") + (c.keyVariant % 3 == 2 ? "@v" : "@k") + "\"/><xsl:key name=\"kq:k\" match=\"*\" use=\"string-length(@rk)\"/>";
+            perNode += o("key-prefixed", vo("count(key('kp:k', @k))") + ":" + vo("key('kp:k', @k)[1]/@id") + ":" + vo("count(key('kq:k', 5))") + ":" + vo("count(key('kp:k', @v))")); }
+        if (on("key-variant")) { static const char* const use[] = { "@k", "@v", "concat(@k, @v)" }; top += std::string("<xsl:key name=\"kvv\" match=\"*\" use=\"") + use[c.keyVariant % 3] + "\"/>";
+            perNode += o("key-variant", vo("count(key('kvv', @k))") + ":" + vo("count(key('kvv', @v))") + ":" + vo("key('kvv', concat(@k, @v))[last()]/@id")); }
         // many result tree fragments alive at the same time (arena blocks of the fragment allocators hold 10)
         if (on("manyrtf")) { std::string vars, uses; for (int i = 0; i < 13; ++i) { std::string n = "mr" + std::to_string(i); vars += "<xsl:variable name=\"" + n + "\"><r" + std::to_string(i) + "><xsl:value-of select=\"@id\"/></r" + std::to_string(i) + ">t" + std::to_string(i) + "</xsl:variable>"; uses += "<xsl:value-of select=\"string-length($" + n + ")\"/>,"; }
             perNode += "<xsl:if test=\"count(preceding::*) mod 4 = 0\">" + vars + "<o f=\"manyrtf\" n=\"{@id}\">" + uses + "<xsl:copy-of select=\"$mr12\"/></o></xsl:if>"; }
@@ -294,14 +314,15 @@ struct SSGen {
         // ---- assemble ----
         std::string s = "<?xml version=\"1.0\"?>\n<xsl:stylesheet version=\"1.0\" xmlns:xsl=\"http://www.w3.org/1999/XSL/Transform\"";
         s += std::string(" xmlns:p1=\"") + NS1 + "\" xmlns:p2=\"" + NS2 + "\"";
-        s += " xmlns:xalan=\"http://xml.apache.org/xalan\" xmlns:exsl=\"http://exslt.org/common\" xmlns:set=\"http://exslt.org/sets\" xmlns:math=\"http://exslt.org/math\" xmlns:str=\"http://exslt.org/strings\" xmlns:nofn=\"urn:x-nofn\" xmlns:ext=\"urn:x-ext\"";
+        s += " xmlns:xalan=\"http://xml.apache.org/xalan\" xmlns:exsl=\"http://exslt.org/common\" xmlns:set=\"http://exslt.org/sets\" xmlns:math=\"http://exslt.org/math\" xmlns:str=\"http://exslt.org/strings\" xmlns:nofn=\"urn:x-nofn\" xmlns:ext=\"urn:x-ext\" xmlns:dyn=\"http://exslt.org/dynamic\"";
+        s += std::string(" xmlns:kp=\"urn:x-key-") + (c.keyVariant % 2 ? "1" : "0") + "\" xmlns:kq=\"urn:x-key-" + (c.keyVariant % 2 ? "0" : "1") + "\"";
         if (c.dupExtPrefix) s += " xmlns:xe1=\"urn:x-extelem\" xmlns:xe2=\"urn:x-extelem\" extension-element-prefixes=\"xe1 xe2\"";
-        s += " exclude-result-prefixes=\"xalan exsl set math str nofn ext p2\">\n";
+        s += " exclude-result-prefixes=\"xalan exsl set math str nofn ext p2 dyn kp kq\">\n";
         if (c.useImport) {
             s += "<xsl:import href=\"imp1.xsl\"/>\n";
             out.resources["imp1.xsl"] = "<?xml version=\"1.0\"?><xsl:stylesheet version=\"1.0\" xmlns:xsl=\"http://www.w3.org/1999/XSL/Transform\"><xsl:template match=\"*\" mode=\"imp\">imp:<xsl:value-of select=\"@id\"/></xsl:template><xsl:template match=\"*[@k='k1']\" mode=\"imp\" priority=\"3\">impk1:<xsl:value-of select=\"@id\"/></xsl:template><xsl:variable name=\"IMPV\" select=\"'from-import'\"/></xsl:stylesheet>";
         }
-        s += "<xsl:output method=\"" + c.method + "\" encoding=\"" + (c.abortKind == "encoding" ? std::string("x-no-such-enc") : c.encoding) + "\" indent=\"no\"";
+        s += "<xsl:output" + (c.method.empty() ? std::string() : " method=\"" + c.method + "\"") + " encoding=\"" + (c.abortKind == "encoding" ? std::string("x-no-such-enc") : c.encoding) + "\" indent=\"no\"";
         if (c.omitDecl) s += " omit-xml-declaration=\"yes\"";
         if (c.cdataElems) s += " cdata-section-elements=\"cd\"";
         s += "/>\n";
@@ -316,14 +337,14 @@ struct SSGen {
         if (c.on.count("lazyvar")) s += "<xsl:variable name=\"LAZY1\" select=\"sum(//@v[. &gt; 0])\"/><xsl:variable name=\"LAZY2\" select=\"//*[@k][position() &lt; 4]\"/>\n";
         if (c.docFn) out.resources["aux.xml"] = "<?xml version=\"1.0\"?><aux><x id=\"x1\">one</x><x id=\"x2\">two</x><y><x id=\"x3\">three</x></y></aux>";
         s += top + "\n";
-        s += "<xsl:template match=\"/\"><out total=\"{$G1}\">" + rootBody;
+        s += "<xsl:template match=\"/\"><" + c.rootName + " total=\"{$G1}\">" + rootBody;
         if (c.useInclude) s += "<o f=\"include\" n=\"/\"><xsl:call-template name=\"incT\"><xsl:with-param name=\"x\" select=\"$G1\"/></xsl:call-template></o>";
         if (c.useImport) s += "<o f=\"import-var\" n=\"/\"><xsl:value-of select=\"$IMPV\"/></o>";
         if (c.cdataElems) s += "<cd><xsl:value-of select=\"normalize-space((//text()[normalize-space()])[1])\"/></cd>";
         if (c.order == "rk") s += "<xsl:apply-templates select=\"//*\" mode=\"obs\"><xsl:sort select=\"@rk\" data-type=\"number\"/></xsl:apply-templates>";
         else if (c.order == "rev") s += "<xsl:apply-templates select=\"//*\" mode=\"obs\"><xsl:sort select=\"position()\" data-type=\"number\" order=\"descending\"/></xsl:apply-templates>";
         else s += "<xsl:apply-templates select=\"//*\" mode=\"obs\"/>";
-        s += "</out></xsl:template>\n";
+        s += "</" + c.rootName + "></xsl:template>\n";
         s += "<xsl:template match=\"*\" mode=\"obs\">" + perNode + "</xsl:template>\n";
         s += extraTemplates + "\n";
         s += "</xsl:stylesheet>\n";
